@@ -57,6 +57,11 @@ FIXED_SPECS = [
     ('record-template-key', O({}, [{'key': {'t': 'regex', 'src': '^(x-)([\\s\\S]*)$', 'desc': '`x-${string}`'}, 'value': N}]), {}),
     ('union-overlap-typedarray', {'t': 'anyof', 'xs': [O({'t': {'t': 'typedarray', 'name': 'Uint8Array'}}), O({'t': {'t': 'typedarray', 'name': 'Uint8Array'}, 'b': OPT(N)})]}, {}),
     ('tuple-rest-objects', {'t': 'tuple', 'prefix': [S], 'rest': O({'x': N})}, {}),
+    # third batch: `unknown & {...}` (the first member hands the caller's own object back), containers of objects inside a union
+    ('allof-any-first', {'t': 'allof', 'xs': [{'t': 'any'}, O({'meta': O({'a': S})})]}, {}),
+    ('union-map-of-objects', {'t': 'anyof', 'xs': [{'t': 'map', 'k': S, 'v': O({'name': S})}, NULL]}, {}),
+    ('union-set-of-objects', {'t': 'anyof', 'xs': [{'t': 'set', 'x': O({'label': S})}, {'t': 'array', 'x': O({'label': S})}]}, {}),
+    ('disc-missing-tag', O({'ev': {'t': 'disc', 'key': 'type', 'mapping': {'a': O({'v': N}), 'b': O({'w': OPT(S)})}}}), {}),
 ]
 
 TS_PROGRAMS = [
@@ -278,8 +283,8 @@ def compile_program(name, src, parser):
 
 
 # ------------------------------------------------------------------------------------------- running jobs
-KINDS_QUICK = ['undefined', 'null', 'true', 'number', 'string', 'bigint', 'array0', 'array1', 'array2', 'object', 'date', 'map1', 'set1', 'function']
-KINDS_THOROUGH = KINDS_QUICK + ['false', 'array3', 'invaliddate', 'u8array', 'f64array', 'map0', 'set0', 'symbol']
+KINDS_QUICK = ['undefined', 'null', 'true', 'number', 'string', 'bigint', 'array0', 'array1', 'array2', 'object', 'date', 'invaliddate', 'map1', 'set1', 'function']
+KINDS_THOROUGH = KINDS_QUICK + ['false', 'array3', 'u8array', 'f64array', 'map0', 'set0', 'symbol']
 LEAF_QUICK = ['undefined', 'null', 'number', 'string']
 LEAF_THOROUGH = ['undefined', 'null', 'true', 'number', 'string', 'bigint', 'array0', 'date', 'function']
 
@@ -385,7 +390,7 @@ def kinds_for(spec, defs, tier):
     L = min(3, max(1, max_tuple(spec, defs) + (2 if 'tuple-rest' in feats else 1)))     # a tuple with rest: two rest elements
     if tier != 'quick':
         L = max(L, 2)
-    kinds = ['undefined', 'null', 'true', 'number', 'string', 'bigint', 'date', 'symbol'] + [f'array{i}' for i in range(L + 1)] + ['object']
+    kinds = ['undefined', 'null', 'true', 'number', 'string', 'bigint', 'date', 'invaliddate', 'symbol'] + [f'array{i}' for i in range(L + 1)] + ['object']
     if 'array' in feats or 'tuple-rest' in feats or 'tuple-closed' in feats:
         kinds += ['sparse2']
     if 'map' in feats or tier != 'quick':
@@ -397,7 +402,7 @@ def kinds_for(spec, defs, tier):
     if 'typedarray' in feats:
         kinds += ['buffer']
     if tier != 'quick':
-        kinds += ['false', 'function', 'invaliddate', 'map0', 'set0', 'f64array']
+        kinds += ['false', 'function', 'map0', 'set0', 'f64array']
     return kinds
 
 
